@@ -1,29 +1,54 @@
-/* Contracts for the INI value parser (C25), input streams of ANY length and content:
+/* Contracts for the INI parser (C25), input streams of ANY length and content.  For every member
+   function of read_context with a loop, and for read_sections:
    - no ABG_ASSERT fails, std::abort() is not reached, no null pointer is dereferenced, the put-back
      buffer is never popped empty (obligations generated inside the real text);
-   - every loop terminates: the measure 2*(bytes left) + |put-back buffer| strictly decreases;
+   - every loop terminates: the measure 8*(bytes left) + 4*|put-back buffer| + (error bits still clear)
+     strictly decreases;
+   - the function honours the contract its callers rely on: the stream is left in a reachable state,
+     exactly as it was or with progress made; a non-nil / non-empty / true result implies progress;
    - read_property: a simple property handed to the section readers always carries a value object
      (the readers of src/abg-suppression.cc call get_value()->as_string() on each one they find). */
 #include "vstd_c.h"
 #include "ghost.h"
-int gh_lc_phase, gh_cur, gh_eofbit, gh_failbit; unsigned long gh_left, gh_bufn;
+int gh_lc_phase, gh_cur, gh_eofbit, gh_failbit, gh_e_cur, gh_e_eof, gh_e_fail, gh_e_good, gh_p_effect_ok, gh_p_weak_ok, gh_p_progress, gh_p_result;
+unsigned long gh_left, gh_bufn, gh_e_m, gh_e_left, gh_e_bufn; char gh_e_buf0;
 void w_read_string(void); void w_read_list(void); void w_read_tuple(void); void w_read_property_value(void); int w_read_property(void);
+void w_skip_line(void); void w_skip_white_spaces(void); void w_skip_comments(void); void w_skip_ws_or_comments(void);
+void w_read_property_name(void); void w_read_function_name(void); void w_read_function_argument(void); void w_read_function_call_expr(void);
+void w_read_section_name(void); void w_read_section(void); void w_read_sections(void);
+#define POST(c) __CPROVER_assert(c, "postcondition: " #c)
 static void any_stream(void)
 {
   gh_left = nondet_ulong(); gh_cur = nondet_int() & 0xff; gh_bufn = nondet_ulong();
   gh_eofbit = nondet_int() != 0; gh_failbit = nondet_int() != 0;
   /* a reachable parser state (STREAM_OK in gen.cpp.in; the put-back byte is constrained in setup()) */
   __CPROVER_assume(gh_left <= (1UL << 40) && gh_bufn <= 1 && (!gh_eofbit || gh_left == 0) && (!gh_failbit || gh_eofbit));
-  gh_lc_phase = nondet_int();
+  gh_lc_phase = nondet_int(); gh_p_effect_ok = 0; gh_p_weak_ok = 0; gh_p_progress = 0; gh_p_result = 0;
 }
-void h_read_string(void) {any_stream(); w_read_string(); CANARY_h_read_string;}
-void h_read_list(void) {any_stream(); w_read_list(); CANARY_h_read_list;}
-void h_read_tuple(void) {any_stream(); w_read_tuple(); CANARY_h_read_tuple;}
-void h_read_property_value(void) {any_stream(); w_read_property_value(); CANARY_h_read_property_value;}
+/* the contract towards callers */
+#define CALLER_CONTRACT POST(gh_p_effect_ok); POST(gh_p_result ==> gh_p_progress)
+/* functions whose callers only need: reachable state, measure not grown, result implies progress */
+#define CALLER_CONTRACT_WEAK POST(gh_p_weak_ok); POST(gh_p_result ==> gh_p_progress)
+void h_read_string(void) {any_stream(); w_read_string(); CALLER_CONTRACT; CANARY_h_read_string;}
+void h_read_list(void) {any_stream(); w_read_list(); CALLER_CONTRACT; CANARY_h_read_list;}
+void h_read_tuple(void) {any_stream(); w_read_tuple(); CALLER_CONTRACT; CANARY_h_read_tuple;}
+void h_read_property_value(void) {any_stream(); w_read_property_value(); CALLER_CONTRACT; CANARY_h_read_property_value;}
 void h_read_property(void)
 {
   any_stream();
   int k = w_read_property();
+  CALLER_CONTRACT_WEAK;
   __CPROVER_assert(k != 4, "postcondition: a simple property returned by read_property has a value object (never null)");
   CANARY_h_read_property;
 }
+void h_skip_line(void) {any_stream(); w_skip_line(); CALLER_CONTRACT_WEAK; /* result bit = stream was good() at entry */ CANARY_h_skip_line;}
+void h_skip_white_spaces(void) {any_stream(); w_skip_white_spaces(); POST(gh_p_effect_ok); POST(!gh_p_result); CANARY_h_skip_white_spaces;}
+void h_skip_comments(void) {any_stream(); w_skip_comments(); POST(gh_p_weak_ok); POST(!gh_p_result); CANARY_h_skip_comments;}
+void h_skip_ws_or_comments(void) {any_stream(); w_skip_ws_or_comments(); CALLER_CONTRACT_WEAK; CANARY_h_skip_ws_or_comments;}
+void h_read_property_name(void) {any_stream(); w_read_property_name(); CALLER_CONTRACT_WEAK; CANARY_h_read_property_name;}
+void h_read_function_name(void) {any_stream(); w_read_function_name(); CALLER_CONTRACT_WEAK; CANARY_h_read_function_name;}
+void h_read_function_argument(void) {any_stream(); w_read_function_argument(); CALLER_CONTRACT_WEAK; CANARY_h_read_function_argument;}
+void h_read_function_call_expr(void) {any_stream(); w_read_function_call_expr(); CALLER_CONTRACT_WEAK; CANARY_h_read_function_call_expr;}
+void h_read_section_name(void) {any_stream(); w_read_section_name(); CALLER_CONTRACT_WEAK; CANARY_h_read_section_name;}
+void h_read_section(void) {any_stream(); w_read_section(); CALLER_CONTRACT_WEAK; CANARY_h_read_section;}
+void h_read_sections(void) {any_stream(); w_read_sections(); POST(gh_p_weak_ok); CANARY_h_read_sections;}
